@@ -181,6 +181,14 @@ class TMapSeq(Ty):
         return [z3.ArraySort(ks, B), z3.ArraySort(ks, I), z3.ArraySort(ks, z3.ArraySort(I, self.elem.comps()[0]))]
 
 
+class TKeySet(Ty):
+    """immutable view of a dict's key set"""
+    def __init__(self, k):
+        self.k = k
+    def key(self): return (self.k,)
+    def comps(self): return [z3.ArraySort(self.k.comps()[0], B)]
+
+
 class TTuple(Ty):
     def __init__(self, items):
         self.items = tuple(items)
